@@ -150,11 +150,91 @@ def rule_R2(ctx, f):
             x, y = peel(c.args[0]), peel(c.args[1])
             if is_call(x, ["Metric::timestamp_ms", "get_timestamp_ms"]) and is_call(y, ["Metric::timestamp_ms", "get_timestamp_ms"]):
                 tscmp = peel(x[2][0]) == ("param", 2) and peel(y[2][0]) == ("param", 3)
+        if not (ok and valcmp and tscmp):
+            ch = _comparator_chain(f, cl)
+            if ch:
+                ok = valcmp = tscmp = True
+                vals = vals + [None, None]
         ctx.ob(rid, "comparator|labels-zipped", ok, "the comparator must walk the label lists of both samples pairwise (m1's first)", site=cl.raw["span"]["at"])
         ctx.ob(rid, "comparator|compares-values", valcmp, "the comparator must order by value(lp1).cmp(value(lp2)) of the zipped pair", site=cl.raw["span"]["at"])
         ctx.ob(rid, "comparator|timestamp-fallback", tscmp, "equal label values must fall back to m1.timestamp.cmp(m2.timestamp)", site=cl.raw["span"]["at"])
         # values compared by != before cmp must be the same pair (no early Equal on other data)
         ctx.floor(rid, "LabelPair::value reads in the comparator", len(vals), 2)
+
+
+def _comparator_chain(f, cl):
+    """The same order written as `len1.cmp(&len2).then_with(|| values1.cmp(values2)).then_with(|| ts1.cmp(&ts2))` where valuesN =
+    get_label(mN).iter().map(|lp| lp.value()): lexicographic on (number of labels, label values in position order, timestamp)."""
+    P2_, P3_ = ("param", 2), ("param", 3)
+    r = peel(cl.term_local(0), transparent=[])
+    if not (is_call(r, "Ordering::then_with") and is_call(peel(r[2][0], transparent=[]), "Ordering::then_with")):
+        return False
+    inner = peel(r[2][0], transparent=[])
+    first, c1, c2 = peel(inner[2][0], transparent=[]), inner[2][1], r[2][1]
+
+    def labels_of(t, m):
+        t = peel(t, transparent=["slice::iter", "IntoIterator::into_iter", "Deref::deref"])
+        return is_call(t, ["get_label"]) and peel(t[2][0]) == m
+    # 1. number of labels
+    if not (is_call(first, "Ord::cmp") and all(is_call(peel(x), ["slice::len", "Vec::len"]) for x in first[2])
+            and labels_of(peel(first[2][0])[2][0], P2_) and labels_of(peel(first[2][1])[2][0], P3_)):
+        return False
+
+    def closure_of(t):
+        return f.closure(t[2]) if (isinstance(t, tuple) and t and t[0] == "agg" and t[1] == "closure") else None
+    k1, k2 = closure_of(c1), closure_of(c2)
+    if k1 is None or k2 is None:
+        return False
+
+    def cap_index(t):
+        t = peel(t)
+        while isinstance(t, tuple) and t and t[0] in ("deref", "ref"):
+            t = t[1]
+        if isinstance(t, tuple) and t and t[0] == "field" and peel(t[1]) == ("param", 1) and str(t[2]).isdigit():
+            return int(t[2])
+        return None
+    # 2. the label values, in position order: Iterator::cmp(values1, values2)
+    ic = k1.calls_to("Iterator::cmp")
+    if len(ic) != 1 or len(k1.calls()) != 1:
+        return False
+    ia, ib = cap_index(ic[0].args[0]), cap_index(ic[0].args[1])
+    caps1 = c1[3]
+    if ia is None or ib is None or max(ia, ib) >= len(caps1):
+        return False
+
+    def values_of(t, m):
+        t = peel(t, transparent=[])
+        if not is_call(t, "Iterator::map"):
+            return False
+        vc = closure_of(t[2][1])
+        if vc is None or not labels_of(t[2][0], m):
+            return False
+        rr = peel(vc.term_local(0), transparent=[])
+        return is_call(rr, ["LabelPair::value", "get_value"]) and peel(rr[2][0]) == ("param", 2) and len(vc.calls()) == 1
+    if not (values_of(caps1[ia], P2_) and values_of(caps1[ib], P3_)):
+        return False
+    # 3. the timestamps
+    oc = k2.calls_to("Ord::cmp")
+    ts_ = k2.calls_to(["Metric::timestamp_ms", "get_timestamp_ms"])
+    if len(oc) != 1 or len(ts_) != 2:
+        return False
+    x, y = peel(oc[0].args[0]), peel(oc[0].args[1])
+    if not (is_call(x, ["Metric::timestamp_ms", "get_timestamp_ms"]) and is_call(y, ["Metric::timestamp_ms", "get_timestamp_ms"])):
+        return False
+    xa, ya = cap_index(x[2][0]), cap_index(y[2][0])
+    caps2 = c2[3]
+    return xa is not None and ya is not None and max(xa, ya) < len(caps2) and peel(caps2[xa]) == P2_ and peel(caps2[ya]) == P3_
+
+
+def merge_sites(b):
+    """Call sites that append samples to the family already stored under the same name: push / extend / append on mut_metric(X) where X comes out
+    of the by-name map (OccupiedEntry::get_mut / into_mut, BTreeMap::get_mut)."""
+    res = []
+    for c in b.calls_to(["Vec::push", "Vec::extend", "Vec::append", "Extend::extend"]):
+        r = peel(c.args[0])
+        if is_call(r, ["mut_metric"]) and [s_ for s_ in subterms(r[2][0]) if isinstance(s_, tuple) and s_ and s_[0] == "call" and is_call(s_, ["OccupiedEntry::get_mut", "OccupiedEntry::into_mut", "BTreeMap::get_mut"])]:
+            res.append(c)
+    return res
 
 
 def rule_R3(ctx, f, rid="R3", prop_text=None):
@@ -165,8 +245,7 @@ def rule_R3(ctx, f, rid="R3", prop_text=None):
     b = ctx.anchor(rid, "gather", f.body(RC + "gather"))
     if not b:
         return
-    pushes = [c for c in b.calls_to(["Vec::push", "Vec::extend", "Vec::append"]) if is_call(peel(c.args[0]), ["mut_metric"]) and
-              is_call(peel(peel(c.args[0])[2][0], transparent=[]), ["OccupiedEntry::get_mut", "OccupiedEntry::into_mut", "BTreeMap::get_mut"])]
+    pushes = merge_sites(b)
     ctx.ob(rid, "gather|merge-site", len(pushes) == 1, "exactly one site appends samples to an existing family (found %d)" % len(pushes), site=b.raw["span"]["at"])
     if len(pushes) != 1:
         return
@@ -215,7 +294,8 @@ def rule_R4(ctx, f):
     ctx.ob(rid, "gather|collect-once-per-collector", len(cc) == 1 and count_range(b, [cc[0].bb])[0] >= 0 and b.dominates(cc[0].bb, inner.bb), "each collector is collected exactly once per gather", site=cc[0].span if cc else None)
     si = b.switch_info(inner.target)
     body_entry = [t for v, t in si[1] if v == 1][0]
-    ents = b.calls_to("BTreeMap::entry")
+    # the lookup of the family's name in the by-name map: entry(name) or get_mut(name)
+    ents = [c for c in b.calls_to(["BTreeMap::entry", "BTreeMap::get_mut"]) if c.bb in b.reach(body_entry, avoid_blocks=[inner.bb])]
     skip_edges = []
     for bi in b.reach(body_entry):
         be = b.bool_edges(bi)
@@ -225,38 +305,50 @@ def rule_R4(ctx, f):
                 skip_edges.append((bi, be[1]))
     ok = len(ents) == 1
     if ok:
-        # without the is_empty edge every path from the loop body back to the header passes the entry() call
+        # without the is_empty edge every path from the loop body back to the header passes the lookup
         r = b.reach(body_entry, avoid_blocks=[ents[0].bb], avoid_edges=skip_edges)
         ok = inner.bb not in r
     ctx.ob(rid, "gather|only-empty-skipped", ok and len(skip_edges) == 1, "a family may bypass the merge only on the `get_metric().is_empty()` edge", site=inner.span)
-    # Vacant: whole family inserted; Occupied: all samples moved
-    vi = b.calls_to("VacantEntry::insert")
     fam = ("field", ("downcast", inner.result_term(), "Some"), "0")
-    ctx.ob(rid, "gather|vacant-inserts-family", len(vi) == 1 and peel(vi[0].args[1]) == fam, "a new name must insert the family itself", site=vi[0].span if vi else None)
-    pushes = [c for c in b.calls_to("Vec::push") if is_call(peel(c.args[0]), ["mut_metric"])]
+    # new name: the whole family is inserted (VacantEntry::insert(fam) or map.insert(name_of(fam), fam))
+    vi = b.calls_to("VacantEntry::insert")
+    okv = len(vi) == 1 and peel(vi[0].args[1]) == fam
+    if not vi:
+        bi_ = [c for c in b.calls_to("BTreeMap::insert") if c.bb in b.reach(body_entry, avoid_blocks=[inner.bb])]
+        okv = len(bi_) == 1 and peel(bi_[0].args[2]) == fam and (lambda k: is_call(k, ["MetricFamily::name", "get_name"]) and peel(k[2][0]) == fam)(
+            peel(bi_[0].args[1], transparent=["ToOwned::to_owned", "str::to_owned", "ToString::to_string", "String::from", "Into::into", "Deref::deref"]))
+        vi = bi_
+    ctx.ob(rid, "gather|vacant-inserts-family", okv, "a new name must insert the family itself (under its own name)", site=vi[0].span if vi else None)
+    # existing name: every sample moved out of the family and appended: push loop over take_metric(fam), or append/extend of take_metric(fam)
+    pushes = merge_sites(b)
     ok = len(pushes) == 1
-    if ok:
+    moved_whole = False
+    if ok and not pushes[0].matches("Vec::push"):
+        src = peel(pushes[0].args[1], transparent=["IntoIterator::into_iter"])
+        moved_whole = is_call(src, ["take_metric"]) and peel(src[2][0]) == fam
+        ok = moved_whole
+    elif ok:
         ep = elem_of(peel(pushes[0].args[1]))
         ok = bool(ep) and is_call(ep[0], ["take_metric"]) and peel(ep[0][2][0]) == fam and [a for a in ep[1] if a != "into_iter"] == []
-    if ok:
-        # the push is executed for every sample: no path through the loop body skips it
-        mnx = [c for c in b.calls_to("Iterator::next") if (lambda e: e and is_call(e[0], ["take_metric"]))(elem_of(("field", ("downcast", c.result_term(), "Some"), "0")))]
-        ok = len(mnx) == 1
+    if ok and ents:
+        # the arm for an existing name is the one from which the append is reached; it must reach it on every path (no `continue` for a family the registry does not like)
+        sw = [bi for bi in b.reach(ents[0].bb, avoid_blocks=[inner.bb]) if (lambda si_: si_ and si_[0][0] == "discr" and peel(si_[0][1], transparent=[]) == ents[0].result_term())(b.switch_info(bi))]
+        ok = len(sw) == 1
         if ok:
-            msi = b.switch_info(mnx[0].target)
-            mbody = [t for v, t in msi[1] if v == 1][0]
-            ok = b.all_paths_pass(mbody, [pushes[0].bb], dst_set={mnx[0].bb})
-    if ok:
-        # ... and the sample loop itself is reached for every family that takes the Occupied arm (no `continue` for a family the registry does not like)
-        oc = [bi for bi in b.reach(body_entry, avoid_blocks=[inner.bb]) if (lambda si_: si_ and is_call(peel(si_[0][1]) if si_[0][0] == "discr" else si_[0], ["BTreeMap::entry"]))(b.switch_info(bi))]
-        tm = b.calls_to(["take_metric"])
-        ok = len(oc) == 1 and len(tm) == 1
-        if ok:
-            si_ = b.switch_info(oc[0])
-            arms_ = [t for v, t in si_[1]] + [si_[2]]
-            occ = [t for t in arms_ if tm[0].bb in b.reach(t, avoid_blocks=[inner.bb]) or t == tm[0].bb]
-            ok = len(occ) == 1 and b.all_paths_pass(occ[0], [mnx[0].bb], dst_set={inner.bb})
-    ctx.ob(rid, "gather|occupied-moves-all-samples", ok, "for an existing name every sample of take_metric() must be pushed, unconditionally (no filter, no de-duplication, no clone)", site=pushes[0].span if pushes else None)
+            si_ = b.switch_info(sw[0])
+            arms_ = [t for v, t in si_[1]] + ([si_[2]] if b.blocks[si_[2]]["term"]["k"] != "unreachable" else [])
+            occ = [t for t in arms_ if pushes[0].bb in b.reach(t, avoid_blocks=[inner.bb]) or t == pushes[0].bb]
+            ok = len(occ) == 1
+            if ok and moved_whole:
+                ok = b.all_paths_pass(occ[0], [pushes[0].bb], dst_set={inner.bb})
+            elif ok:
+                mnx = [c for c in b.calls_to("Iterator::next") if (lambda e: e and is_call(e[0], ["take_metric"]))(elem_of(("field", ("downcast", c.result_term(), "Some"), "0")))]
+                ok = len(mnx) == 1 and b.all_paths_pass(occ[0], [mnx[0].bb], dst_set={inner.bb})
+                if ok:
+                    msi = b.switch_info(mnx[0].target)
+                    mbody = [t for v, t in msi[1] if v == 1][0]
+                    ok = b.all_paths_pass(mbody, [pushes[0].bb], dst_set={mnx[0].bb})
+    ctx.ob(rid, "gather|occupied-moves-all-samples", ok, "for an existing name every sample of take_metric() must be appended, unconditionally (no filter, no de-duplication, no clone)", site=pushes[0].span if pushes else None)
     loop_blocks = b.reach(body_entry, avoid_blocks=[outer.bb])
     clones = [c for c in b.calls_to("Clone::clone") if c.bb in loop_blocks and ("Metric" in c.callee_args)]
     ctx.ob(rid, "gather|no-clone", not clones, "samples and families are moved, never cloned, in the merge loop", site=clones[0].span if clones else None)
